@@ -35,7 +35,15 @@ static Bytes expandData(const std::string &spec)
   for (auto &part : vf::split(spec, '+'))
   {
     if (part.empty() || part == "-") continue;
-    if (part[0] == 'r')
+    if (part[0] == 'R')
+    {
+      auto x = part.find('x');
+      std::size_t n = strtoull(part.c_str() + 1, nullptr, 10);
+      Bytes unit;
+      for (std::size_t i = x + 1; i + 1 < part.size(); i += 2) unit.push_back((std::uint8_t)(hexv(part[i]) * 16 + hexv(part[i + 1])));
+      for (std::size_t k = 0; k < n; ++k) out.insert(out.end(), unit.begin(), unit.end());
+    }
+    else if (part[0] == 'r')
     {
       auto x = part.find('x');
       std::size_t n = strtoull(part.c_str() + 1, nullptr, 10);
@@ -269,6 +277,13 @@ struct Obs
   void out(const WFrame &f)
   {
     std::lock_guard<SpinLock> g(m);
+    if (f.rsv != 0 || !f.minimal) strictOk = false;
+    if (nouts >= 100)
+    {
+      // a flood of answers (e.g. one close frame per inbound frame): the first 100 are recorded, the rest counted
+      ++nouts;
+      return;
+    }
     if (nouts++) outs += ",";
     int code = 0;
     if (f.op == 8 && f.payload.size() >= 2) code = (f.payload[0] << 8) | f.payload[1];
